@@ -139,14 +139,18 @@ func addLeaf(t Tree, r *Route, s *Segment, h Handler) (Leaf, error) {
 				return nil, errors.Wrap(err, "add optional leaf to grandparent")
 			}
 		} else {
-			_, err = addLeaf(parent, r, parent.getSegment(), h)
+			// The parent is the root, which has no segment: the short form of a route
+			// whose only segment is optional is "/".
+			_, err = addLeaf(parent, r, &Segment{}, h)
 			if err != nil {
 				return nil, errors.Wrap(err, "add optional leaf to parent")
 			}
 		}
 	}
 
-	// Determine leaf position by the priority of match styles.
+	// Determine leaf position by the priority of match styles. The list may have
+	// changed if the short form has just been added to the same (root) tree.
+	leaves = t.getLeaves()
 	i := 0
 	for ; i < len(leaves); i++ {
 		if leaf.getMatchStyle() < leaves[i].getMatchStyle() {
